@@ -14,6 +14,7 @@
 #include <list>
 #include <map>
 #include <boost/property_map/property_map.hpp>
+#include <boost/iterator/function_output_iterator.hpp>
 #include <string>
 #include <vector>
 #include "bgl.hpp"
@@ -51,7 +52,8 @@ template<class W>
 using CycleList = std::list<std::list<typename vb::Built<W>::Edge>>;
 
 // Kind of output iterator the caller hands in: 0 = std::back_inserter into a list (what every test and demo of the
-// repository uses), 1 = a POSITIONAL iterator into a pre-sized vector. The entry points take "an output iterator"; a
+// repository uses), 1 = a POSITIONAL iterator into a pre-sized vector, 2 = boost::function_output_iterator over a callback that takes
+// a const reference and copies (a sink that does not move from what it is assigned: `*out++ = std::move(x)` leaves x intact). The entry points take "an output iterator"; a
 // positional one is advanced by copies of itself, so code that passes it by value to a helper and keeps using the original
 // overwrites what the helper wrote. The buffer has slack behind the expected count; whatever lands there is reported too.
 inline int &out_kind() { static int k = 0; return k; }
@@ -59,6 +61,10 @@ inline int &out_kind() { static int k = 0; return k; }
 template<class W, class Call>
 W run_with_output(vb::Built<W> &b, CycleList<W> &cycles, Call call) {
     if (out_kind() == 0) return call(std::back_inserter(cycles));
+    if (out_kind() == 2) {      // a sink that COPIES what it is given (callback taking a const reference): the value handed over stays with the caller
+        auto sink = [&cycles](const std::list<typename vb::Built<W>::Edge> &c) { cycles.push_back(c); };
+        return call(boost::make_function_output_iterator(sink));
+    }
     // expected number of cycles = m - n + c of the caller's graph
     std::size_t n = boost::num_vertices(b.g), m = boost::num_edges(b.g);
     std::vector<std::size_t> par(n); for (std::size_t i = 0; i < n; ++i) par[i] = i;
